@@ -375,6 +375,24 @@ func (x *exec) run(op string) bool {
 	default:
 		panic("op " + op)
 	}
+	if os.Getenv("VERIF_C14_DEBUG") != "" {
+		d := x.r.Pool.VerifDump()
+		fmt.Fprintf(os.Stderr, "DEBUG after %q: head=%d epoch=%d period=%d\n", op, x.r.Chain.Head.Height(), x.r.App.State.Epoch(), x.r.App.State.ValidationPeriod())
+		for a, l := range d.Executable {
+			fmt.Fprintf(os.Stderr, "DEBUG   exec %s (state nonce %d epoch %d):", a.Hex()[:8], x.r.App.State.GetNonce(a), x.r.App.State.GetEpoch(a))
+			for _, tx := range l {
+				fmt.Fprintf(os.Stderr, " %s[n=%d e=%d t=%d]", x.lbl(tx), tx.AccountNonce, tx.Epoch, tx.Type)
+			}
+			fmt.Fprintln(os.Stderr)
+		}
+		for a, l := range d.Pending {
+			fmt.Fprintf(os.Stderr, "DEBUG   pend %s:", a.Hex()[:8])
+			for _, tx := range l {
+				fmt.Fprintf(os.Stderr, " %s[n=%d e=%d t=%d]", x.lbl(tx), tx.AccountNonce, tx.Epoch, tx.Type)
+			}
+			fmt.Fprintln(os.Stderr)
+		}
+	}
 	x.invariants()
 	return true
 }
@@ -538,8 +556,25 @@ func (x *exec) invariants() {
 			if snd != s {
 				x.viol("executable-wrong-sender", x.lbl(tx)+" is filed under another sender")
 			}
-			if i > 0 && (tx.AccountNonce != l[i-1].AccountNonce+1 || tx.Epoch != l[i-1].Epoch) {
-				x.viol("executable-not-consecutive", fmt.Sprintf("executable queue of %s: %s follows %s", s.Hex()[:8], x.lbl(tx), x.lbl(l[i-1])))
+			// During the validation sessions (and while syncing) the pool does not re-validate its content on every
+			// block: the statement tolerates entries with a consumed nonce or a past epoch there. Such a stale
+			// entry may sit in front of live ones, so consecutiveness is demanded of the live entries only (the
+			// list actually offered to a proposer is judged separately, always strictly).
+			stale := func(t *types.Transaction) bool {
+				if !(x.syncing || st.ValidationPeriod() > state.FlipLotteryPeriod) {
+					return false
+				}
+				return t.Epoch < global || (t.Epoch == global && st.GetEpoch(s) == global && t.AccountNonce <= st.GetNonce(s))
+			}
+			prev := -1
+			for j := i - 1; j >= 0; j-- {
+				if !stale(l[j]) {
+					prev = j
+					break
+				}
+			}
+			if prev >= 0 && !stale(tx) && (tx.AccountNonce != l[prev].AccountNonce+1 || tx.Epoch != l[prev].Epoch) {
+				x.viol("executable-not-consecutive", fmt.Sprintf("executable queue of %s: %s follows %s", s.Hex()[:8], x.lbl(tx), x.lbl(l[prev])))
 			}
 		}
 	}
